@@ -62,7 +62,9 @@ def main():
         else:
             res['demo_patched'], res['demo_out'] = demo(wt)
             if a.tests and meta.get('tests_run'):
-                mods = [t for t in meta['tests_run'] if t.startswith('tests/')]
+                import re
+                mods = sorted(set(re.findall(r'tests/[\w/]+\.py', ' '.join(meta['tests_run']))))
+                res['tests_mods'] = mods
                 e = dict(env, PYTHONPATH=f'{wt}/src:{wt}')
                 r = sh(['/venv/bin/python', '-m', 'pytest', '-q', '-p', 'no:cacheprovider', '-x', *mods], env=e, cwd=wt, timeout=3000)
                 res['tests_rc'] = r.returncode
@@ -93,7 +95,7 @@ def main():
     # record what was run and what came out next to the seeded change
     meta['verification'] = {
         'ran': [f'demo.py on /repo (exit {rc_clean})', f"demo.py on scratch worktree of /repo HEAD + patch (exit {res.get('demo_patched')})"]
-               + ([f"pytest {' '.join(t for t in meta.get('tests_run', []) if t.startswith('tests/'))} on the patched tree (exit {res.get('tests_rc')})"] if 'tests_rc' in res else [])
+               + ([f"pytest {' '.join(res.get('tests_mods', []))} on the patched tree (exit {res.get('tests_rc')})"] if 'tests_rc' in res else [])
                + [f"VERIF_REPO=<patched tree> VERIF_SEED={c['seed']} ./check {prop} --tier {a.tier} (exit {c['rc']})" for c in res.get('checks', [])],
         'verdict': verdict,
         'violation_lines': [v for c in res.get('checks', []) for v in c['violations']][:4],
